@@ -67,6 +67,7 @@ void on_segv(int sig, siginfo_t* si, void* ucv) {
     ucontext_t* uc = (ucontext_t*)ucv;
     std::uintptr_t a = (std::uintptr_t)si->si_addr, rip = (std::uintptr_t)uc->uc_mcontext.gregs[REG_RIP];
     bool gp = (si->si_code == SI_KERNEL) || (sig == SIGSEGV && si->si_code != SEGV_MAPERR && si->si_code != SEGV_ACCERR) || sig == SIGBUS;
+    const bool other_signal = sig == SIGFPE || sig == SIGILL;      // e.g. a division by a zero count: not resumable, the operation is aborted
     if (!g_jmp) { const char m[] = "SimMem: fault outside an AVEL operation\n"; (void)!write(2, m, sizeof m - 1); signal(sig, SIG_DFL); raise(sig); return; }
     int n = g_nfaults;
     if (n < 8) {
@@ -74,6 +75,7 @@ void on_segv(int sig, siginfo_t* si, void* ucv) {
         std::memcpy(f.code, (const void*)rip, sizeof f.code);      // RIP is in our own text: readable
         g_nfaults = n + 1;
     }
+    if (other_signal) { g_abort_reason = sig == SIGFPE ? 5 : 6; siglongjmp(*g_jmp, 1); }
     if (gp) { g_abort_reason = 1; siglongjmp(*g_jmp, 1); }
     if (a < RES_BASE || a >= RES_BASE + RES_SIZE) { g_abort_reason = 2; siglongjmp(*g_jmp, 1); }
     if (n >= 7 || g_nopened >= 15) { g_abort_reason = 3; siglongjmp(*g_jmp, 1); }
@@ -175,7 +177,7 @@ struct MemEngine : Engine {
         if (g_host == MAP_FAILED) return "cannot map host window";
         for (unsigned i = 0; i < WPAGES; ++i) g_cur[i] = P_RW;
         struct sigaction sa; std::memset(&sa, 0, sizeof sa); sa.sa_sigaction = on_segv; sa.sa_flags = SA_SIGINFO | SA_NODEFER;
-        sigaction(SIGSEGV, &sa, nullptr); sigaction(SIGBUS, &sa, nullptr);
+        sigaction(SIGSEGV, &sa, nullptr); sigaction(SIGBUS, &sa, nullptr); sigaction(SIGFPE, &sa, nullptr); sigaction(SIGILL, &sa, nullptr);
         sa.sa_sigaction = on_trap; sa.sa_flags = SA_SIGINFO; sigaction(SIGTRAP, &sa, nullptr);
         { struct sigaction al; std::memset(&al, 0, sizeof al); al.sa_handler = on_alarm_mem; al.sa_flags = SA_NODEFER; sigaction(SIGALRM, &al, nullptr); }
         cpu_level = __builtin_cpu_supports("avx512bw") ? 3 : __builtin_cpu_supports("avx512f") ? 2 : __builtin_cpu_supports("avx") ? 1 : 0;
@@ -468,6 +470,9 @@ struct MemEngine : Engine {
             if (abort_reason == 4) {
                 std::snprintf(d, sizeof d, "%s %s form=%s n=%u: the call did not return within 3 s", op.c_str(), t->name, c.form.c_str(), c.n);
                 rr->violate("C08", stepno, {"C08", "hang", op, t->name, c.form}, d);
+            } else if (abort_reason == 5 || abort_reason == 6) {
+                std::snprintf(d, sizeof d, "%s %s form=%s n=%u: raised %s code=%s", op.c_str(), t->name, c.form.c_str(), c.n, abort_reason == 5 ? "SIGFPE" : "SIGILL", hexbytes(f.code, 8).c_str());
+                rr->violate("C09", stepno, {"C09", "signal", op, t->name, c.form}, d);
             } else if (abort_reason == 1) {
                 std::snprintf(d, sizeof d, "%s %s form=%s n=%u p%%%u=%zu: general-protection fault (aligned instruction on an element-aligned pointer?) code=%s", op.c_str(), t->name, c.form.c_str(), c.n, t->vec_align, c.p % t->vec_align, hexbytes(f.code, 8).c_str());
                 rr->violate("C09", stepno, {"C09", "gp_fault", op, t->name, c.form}, d);
@@ -587,7 +592,8 @@ struct MemEngine : Engine {
             rr->violate("C20", stepno, {"C20", "hang", opn, form}, d); return;
         }
         if (!ok || nf > 0) {
-            char d[260]; std::snprintf(d, sizeof d, "%s level=%d form=%s n=%zu ptr=%s: raised a signal (%s fault at %p, abort reason %d) code=%s", opn, c.plevel, form.c_str(), c.pn, ptr.c_str(), f0.write ? "write" : "read", (void*)f0.addr, abort_reason, hexbytes(f0.code, 8).c_str());
+            char d[260]; std::snprintf(d, sizeof d, "%s level=%d form=%s n=%zu ptr=%s: raised a signal (%s at %p, abort reason %d) code=%s", opn, c.plevel, form.c_str(), c.pn, ptr.c_str(),
+                abort_reason == 5 ? "SIGFPE" : abort_reason == 6 ? "SIGILL" : f0.write ? "write fault" : "read fault", (void*)f0.addr, abort_reason, hexbytes(f0.code, 8).c_str());
             rr->violate("C20", stepno, {"C20", "signal", opn, form}, d); if (!ok) return;
         }
         if (std::memcmp(g_host, model, WBYTES)) {
